@@ -544,6 +544,15 @@ def comp_psum_unfold(s, c, q):
 def seq_concat(a, b):
     if isinstance(a, (tuple, list)) and isinstance(b, (tuple, list)):
         return tuple(a) + tuple(b)
+    # a sequence value with a structure of its own (contract-side model, e.g. the shard list of a canvas: explicit
+    # head shards + an unknown tail) says itself what a concatenation with it is: `concat_model(other, self_is_left)`
+    # returns the new sequence value, or NotImplemented to fall through to the generic rules below
+    for x, other, left in ((a, b, True), (b, a, False)):
+        h = getattr(x, "concat_model", None)
+        if h is not None:
+            r = h(other, left)
+            if r is not NotImplemented:
+                return r
     if hasattr(a, "fold_concat") and isinstance(b, (tuple, list)):
         # a sequence known only through a fold of its elements (contract-side model, e.g. the running join of a
         # list of canvases): appending concrete items steps the fold
@@ -596,6 +605,12 @@ def seq_slice1(s, lo, hi):
     """s[lo:hi] for normalised 0 <= lo, hi <= len (step 1); empty when hi <= lo."""
     if isinstance(s, (tuple, list)) and isinstance(lo, int) and isinstance(hi, int):
         return tuple(s[lo:hi])
+    h = getattr(s, "slice_model", None)
+    if h is not None:
+        # a structured sequence value (see seq_concat): `slice_model(lo, hi)` -> the slice, or NotImplemented
+        r = h(lo, hi)
+        if r is not NotImplemented:
+            return r
     s = to_sseq(s)
     n = imax(hi - lo, 0)
     psum = None
